@@ -48,6 +48,9 @@ CHECKS["C15"] = dict(tech="TLC model checking of OptLoop.tla (NoWorse, Restored,
 CHECKS["C17"] = dict(tech="TLC exhaustive model checking of Sampling.tla (Distinct, SourceUntouched over every assignment and order of S samples on W forked workers, any prior generator position, serial and parallel) with the reseed constant observed on the real pool initialiser + replay of the enumerated schedules with real forks + real pool / Ensemble runs + TLC judgment (SamplingTrace.tla: Distinct, SourceUntouched, ZeroSigma, Sampleable)",
                      text="Workers, streams and assignments are modelled explicitly; the harness probes what the real initialiser does to a forked generator, TLC checks distinctness for every schedule under that constant, and the schedules are re-executed with real os.fork children calling the real initialiser and sampler; recorded digests of sampled inputs / results (also from multiprocessing.Pool and sc.parallelize runs) are compared by TLC; sources are digested before and after; zero / absent uncertainty must reproduce the unsampled run; every library program book, with explicit interaction outcomes added, must be sampleable.",
                      ref="DESIGN.md section 6 C17", note="Trusted base: TLC; digest walker; the operating system's fork semantics. Pool scheduling of the real multiprocessing runs is whatever the day produces (recorded), the enumerated schedules are exact.")
+CHECKS["C08"] = dict(tech="TLC exhaustive enumeration of Effects.tla histories (Frame, Functional over all sequences up to length 3 of run / run-with-programs / other-project / deepcopy / pickle / save-load / fresh-process operations on two projects) + execution of the histories on real projects + TLC validation of the digest trace (EffectsTrace.tla: Frame, Functional across histories and processes)",
+                     text="Every API operation is an action with an explicit frame and an uninterpreted result function of the input contents; TLC enumerates the histories, the harness executes them on library and generated projects (incl. output-only function parameters without dependencies, multi-component characteristics, timed compartments), digests every input before and after every call and every result, also from fresh interpreters with different hash seeds, and TLC checks that the memo table inputs -> result stays single-valued and no input changed.",
+                     ref="DESIGN.md section 6 C08", note="Trusted base: TLC; the structural digest walker (bitwise on arrays; metadata fields skipped); histories of length 3 are sampled in the quick tier (all in thorough).")
 NOT_YET = {}
 
 
@@ -69,7 +72,7 @@ def main():
              hooks=dict(guard="ATOMICA_VERIF", enable="no source hooks: observation is by run-time wrappers installed by harness/observe.py (ATOMICA_VERIF=1 is exported by ./check for completeness)",
                         baseline_off_cmd="cd /repo && /venv/bin/python -m pytest -ra -q -p no:cacheprovider --timeout=900 --continue-on-collection-errors", source_commits=[], add_only=True),
              engines=[dict(name="tla-engine", path="spec/Engine.tla", serves_properties=["C01", "C02", "C03", "C04", "C05"], kind_free_text="explicit TLA+ specification of the integration loop, TLC exhaustive + replay + trace validation"),
-                      dict(name="tla-pure", path="spec/", serves_properties=["C07", "C11", "C12", "C14", "C15", "C17", "C19"], kind_free_text="per-mechanism TLA+ modules (case enumeration + theorems checked by TLC) with a trace module that judges the values returned by the real code")],
+                      dict(name="tla-pure", path="spec/", serves_properties=["C07", "C08", "C11", "C12", "C14", "C15", "C17", "C19"], kind_free_text="per-mechanism TLA+ modules (case enumeration + theorems checked by TLC) with a trace module that judges the values returned by the real code")],
              checks=checks, not_applicable=na,
              notes="Eleven genuine defects repaired in /repo with 'fix:' commits (see known_findings.json). Exit codes: 0 held, 1 violation, 2 machinery failure.")
     json.dump(m, open(os.path.join(HERE, "MANIFEST.json"), "w"), indent=1)
